@@ -13,7 +13,10 @@ PoisonInit == \E p \in Protos, k \in {"unary", "client", "server", "bidi"} :
 \* handler side: the ResponseWriter accepts `cut` Write calls and refuses the rest
 HandlerInit == \E p \in Protos, k \in {"hserver", "hbidi"}, n \in 1..3 : \E c \in 0..(2 * n + 2) :
                  InitWith([proto |-> p, kind |-> k, sizes |-> [i \in 1..n |-> 1], cut |-> c, fault |-> "werr", poison |-> 0])
+\* ... or refuses exactly one Write (oracle only: the byte-level state machine covers the sticky faults)
+OnceInit == \E p \in Protos, k \in {"hserver", "hbidi"}, n \in 1..3 : \E c \in 0..(2 * n + 1) :
+              InitWith([proto |-> p, kind |-> k, sizes |-> [i \in 1..n |-> 1], cut |-> c, fault |-> "werr1", poison |-> 0])
 MCSpec == (MCInit \/ PoisonInit \/ HandlerInit) /\ [][Next]_vars
-GenSpec == (MCInit \/ PoisonInit \/ HandlerInit) /\ [][FALSE]_vars
+GenSpec == (MCInit \/ PoisonInit \/ HandlerInit \/ OnceInit) /\ [][FALSE]_vars
 Emit == PrintT(ToJson(sc))
 =============================================================================
